@@ -75,7 +75,8 @@ impl CheckRestrictions for Probe {
 }
 impl YaSerialize for Probe {
     fn serialize<W: std::io::Write>(&self, writer: &mut yaserde::ser::Serializer<W>) -> Result<(), String> {
-        log(Ev::Ser, self.tag, writer as *mut _ as usize, 0);
+        // the state of the caller's serializer as the wrapped value sees it (content-only positions set skip_start_end)
+        log(Ev::Ser, self.tag, writer as *mut _ as usize, writer.skip_start_end() as usize);
         if unsafe { SCRIPT_OK } { Ok(()) } else { Err(err_string()) }
     }
     fn serialize_attributes(
@@ -151,6 +152,32 @@ fn c19_check_restrictions() {
 
 #[kani::proof]
 #[kani::unwind(4)]
+fn c19_check_restrictions_every_time() {
+    // the result is the wrapped value's result on EVERY call (no memory of an earlier call), also through a clone
+    unsafe {
+        SCRIPT_OK = true;
+        SCRIPT_BYTE = 0x41;
+    }
+    let tag: u8 = kani::any();
+    let w = MultiRef::new(Probe { tag });
+    let first = w.check_restrictions(None);
+    assert!(first.is_ok(), "C19 same restriction result (first call)");
+    let via_clone: bool = kani::any();
+    let w2 = w.clone();
+    unsafe { SCRIPT_OK = false };
+    let r = Rc::new(Restrictions::default());
+    std::mem::forget(r.clone());
+    let second = if via_clone { w2.check_restrictions(Some(r)) } else { w.check_restrictions(Some(r)) };
+    assert!(unsafe { NLOG } == 2, "C19 every call reaches the wrapped value");
+    assert!(second.is_err(), "C19 same restriction result on a later call with other restrictions");
+    std::mem::forget(first);
+    std::mem::forget(second);
+    std::mem::forget(w);
+    std::mem::forget(w2);
+}
+
+#[kani::proof]
+#[kani::unwind(4)]
 fn c19_serialize() {
     let (ok, b) = script();
     let tag: u8 = kani::any();
@@ -159,9 +186,14 @@ fn c19_serialize() {
     let mut mem = MaybeUninit::<yaserde::ser::Serializer<Vec<u8>>>::uninit();
     let ser: &mut yaserde::ser::Serializer<Vec<u8>> = unsafe { &mut *mem.as_mut_ptr() };
     let addr = ser as *mut _ as usize;
+    // only this flag of the serializer is ever read: it is initialised here, with an arbitrary value
+    let skip: bool = kani::any();
+    ser.set_skip_start_end(skip);
     let res = w.serialize(ser);
-    let (seen, _) = one_event(Ev::Ser, tag);
+    let (seen, seen_skip) = one_event(Ev::Ser, tag);
     assert!(seen == addr, "C19 serialize writes into the caller's serializer");
+    assert!(seen_skip == skip as usize, "C19 the wrapped value sees the serializer in the state the caller left it in");
+    assert!(ser.skip_start_end() == skip, "C19 the wrapper leaves the serializer state alone");
     match &res {
         Ok(()) => assert!(ok, "C19 same serialize result"),
         Err(s) => assert!(!ok && s.as_bytes().len() == 1 && s.as_bytes()[0] == b, "C19 same serialize error"),
